@@ -1,115 +1,214 @@
 import Logrange.Proofs.ScanSync
+import Logrange.Generated.C17
 /-!
 # C17 (sync): a file replaced under the same name is read once, from its beginning, by a worker that reads THAT file
 
-Property theorems over `Model/ScanSync.lean` (scan, merge, open as separate steps of `Scanner.sync`; `replace` can fall
-anywhere). Proofs: the invariant `YInv` of `Proofs/ScanSync.lean`. The one excluded timing — a replacement between the
-scan and the open of one sync, ghost `hit` — is a finding: `cex_replaced_between_scan_and_open`.
+Property theorems over `Model/ScanSync.lean` (scan, merge, open, check as separate steps of `Scanner.sync`; `replace`
+can fall anywhere). Proofs: the invariant `YInv c` of `Proofs/ScanSync.lean`, for both branches of `Cfg.checksId`.
+Since fix 5ccf34b the worker's open is followed by a second stat of the path and a comparison of its file id with the
+descriptor's (`codeSync`): the theorems hold for EVERY timing of replacements. The code before the fix (`⟨false⟩`) is
+kept as the other branch: there a replacement between the scan and the open of one sync (ghost `hit`) had to be
+excluded — fixed finding F-C17-901, `cex_replaced_between_scan_and_open`.
 -/
 namespace Logrange.Props.C17Sync
 open Logrange.ScanSync
 
-/-- a worker reads the inode its descriptor is stored under — for replacements between two syncs, while a worker reads,
-any number of times between two scans; the only excluded timing is a replacement between the scan and the open of one
-sync (`hit`) -/
+/-- the `Scanner.sync` the code has now: the worker's open is followed by the file-id check -/
+def codeSync : Cfg := ⟨Generated.C17.workerOpenChecksFileId⟩   -- regenerated from the source on every run
+
+theorem codeSync_checks : codeSync.checksId = true := by decide
+
+/-- (fix 5ccf34b) UNCONDITIONAL now: whatever the timing of replacements — between two syncs, while a worker reads, any
+number of times between two scans, and also between the scan and the open or between the open and the id check of one
+sync — a worker reads the inode its descriptor is stored under -/
 theorem worker_reads_the_file_its_descriptor_names (off : Nat) (tr : List L) :
-    let w := run (initWith off) tr
-    w.hit = false → ∀ d ∈ workers w, ∀ o, d.opened = some o → o = d.key := by
-  intro w hh
-  exact (yinv_run (yinv_initWith off) tr).openedEq hh
+    let w := run codeSync (initWith off) tr
+    ∀ d ∈ workers w, ∀ o, d.opened = some o → o = d.key := by
+  intro w
+  exact (yinv_run (yinv_initWith codeSync off) tr).openedEq (Or.inl codeSync_checks)
 
-/-- non-vacuity: replaced twice between two syncs: no `hit`; the new inode's worker has the new inode open, the retired
-worker of inode 0 (resumed at the saved offset 17) keeps inode 0 -/
+/-- non-vacuity: replaced twice between two syncs: the new inode's worker has the new inode open, the retired worker of
+inode 0 (resumed at the saved offset 17) keeps inode 0 -/
 example :
-    (run (initWith 17) (sync ++ [.replace, .replace] ++ sync)).hit = false ∧
-    (run (initWith 17) (sync ++ [.replace, .replace] ++ sync)).descs = [⟨2, some 2, 0⟩] ∧
-    (run (initWith 17) (sync ++ [.replace, .replace] ++ sync)).retired = [⟨0, some 0, 17⟩] := by decide
+    (run codeSync (initWith 17) (sync ++ [.replace, .replace] ++ sync)).hit = false ∧
+    (run codeSync (initWith 17) (sync ++ [.replace, .replace] ++ sync)).descs = [⟨2, some 2, 0⟩] ∧
+    (run codeSync (initWith 17) (sync ++ [.replace, .replace] ++ sync)).retired = [⟨0, some 0, 17⟩] := by decide
 
-/-- read once: no two workers (current or draining) were started on the same inode -/
+/-- non-vacuity, a `hit` history: replaced between the open (the parser has inode 0 open) and the id check (the name
+shows inode 1): the check closes the parser, descriptor 0 stays without a worker; the next sync forgets it (retired,
+never opened) and starts ONE worker on inode 1 from 0 -/
+example :
+    (run codeSync init [.scan, .merge, .open, .replace, .check]).hit = true ∧
+    (run codeSync init [.scan, .merge, .open, .replace, .check]).descs = [⟨0, none, 0⟩] ∧
+    (run codeSync init [.scan, .merge, .open, .replace, .check]).retired = [] ∧
+    (run codeSync init ([.scan, .merge, .open, .replace, .check] ++ sync)).descs = [⟨1, some 1, 0⟩] ∧
+    (run codeSync init ([.scan, .merge, .open, .replace, .check] ++ sync)).retired = [⟨0, none, 0⟩] := by decide
+
+/-- non-vacuity, a `hit` history with a worker that stays: inode 0 is synced (worker from the saved offset 17), then a
+replacement falls between the open and the check of the NEXT sync: the old worker is retired with inode 0 still open,
+the new descriptor's open is rejected once, the sync after that starts it -/
+example :
+    (run codeSync (initWith 17) (sync ++ [.replace, .scan, .merge, .open, .replace, .check])).hit = true ∧
+    (run codeSync (initWith 17) (sync ++ [.replace, .scan, .merge, .open, .replace, .check])).descs =
+      [⟨1, none, 0⟩] ∧
+    (run codeSync (initWith 17) (sync ++ [.replace, .scan, .merge, .open, .replace, .check])).retired =
+      [⟨0, some 0, 17⟩] ∧
+    workers (run codeSync (initWith 17) (sync ++ [.replace, .scan, .merge, .open, .replace, .check] ++ sync)) =
+      [⟨2, some 2, 0⟩, ⟨0, some 0, 17⟩, ⟨1, none, 0⟩] := by decide
+
+/-- read once: no two workers (current or draining) were started on the same inode — unconditional with the id check -/
 theorem no_inode_read_by_two_workers (off : Nat) (tr : List L) :
-    let w := run (initWith off) tr
-    w.hit = false →
+    let w := run codeSync (initWith off) tr
     (workers w).Pairwise (fun a b => a.key ≠ b.key) ∧
     (workers w).Pairwise (fun a b => ∀ o, a.opened = some o → b.opened ≠ some o) := by
-  intro w hh
-  have h := yinv_run (yinv_initWith off) tr
-  exact ⟨h.keysDistinct, h.openedDistinct hh⟩
+  intro w
+  have h := yinv_run (yinv_initWith codeSync off) tr
+  exact ⟨h.keysDistinct, h.openedDistinct (Or.inl codeSync_checks)⟩
 
-/-- non-vacuity: three workers (one current, two draining) after a replacement between every two syncs, no `hit` -/
+/-- non-vacuity: three workers (one current, two draining) after a replacement between every two syncs -/
 example :
-    (run (initWith 17) (sync ++ [.replace] ++ sync ++ [.replace, .replace] ++ sync)).hit = false ∧
-    workers (run (initWith 17) (sync ++ [.replace] ++ sync ++ [.replace, .replace] ++ sync)) =
+    workers (run codeSync (initWith 17) (sync ++ [.replace] ++ sync ++ [.replace, .replace] ++ sync)) =
       [⟨3, some 3, 0⟩, ⟨0, some 0, 17⟩, ⟨1, some 1, 0⟩] := by decide
 
-/-- the first half holds with or without `hit`: a retired key never comes back, whatever the timing -/
-theorem no_two_descriptors_under_one_key (off : Nat) (tr : List L) :
-    (workers (run (initWith off) tr)).Pairwise (fun a b => a.key ≠ b.key) :=
-  (yinv_run (yinv_initWith off) tr).keysDistinct
+/-- non-vacuity: the same with the first replacement INSIDE a sync (between scan and merge): inode 1 is still opened
+only once, under key 1 -/
+example :
+    (run codeSync (initWith 17) (sync ++ [.scan, .replace, .merge, .open, .check] ++ sync ++ [.replace] ++ sync)).hit
+      = true ∧
+    workers (run codeSync (initWith 17) (sync ++ [.scan, .replace, .merge, .open, .check] ++ sync ++ [.replace] ++ sync))
+      = [⟨2, some 2, 0⟩, ⟨0, some 0, 17⟩, ⟨1, some 1, 0⟩] := by decide
 
-/-- from its beginning: only the inode the state file named is resumed at a saved offset; every file that came under the
-name later is read from offset 0 -/
-theorem replaced_file_read_from_its_beginning (off : Nat) (tr : List L) :
-    let w := run (initWith off) tr
+/-- both branches, with or without `hit`: a retired key never comes back, whatever the timing -/
+theorem no_two_descriptors_under_one_key (c : Cfg) (off : Nat) (tr : List L) :
+    (workers (run c (initWith off) tr)).Pairwise (fun a b => a.key ≠ b.key) :=
+  (yinv_run (yinv_initWith c off) tr).keysDistinct
+
+/-- non-vacuity: the old code's bad schedule still has two descriptors under two keys (0 and 1) -/
+example :
+    workers (run ⟨false⟩ init [.scan, .replace, .merge, .open, .check, .scan, .merge, .open, .check]) =
+      [⟨1, some 1, 0⟩, ⟨0, some 1, 0⟩] := by decide
+
+/-- from its beginning (both branches): only the inode the state file named is resumed at a saved offset; every file
+that came under the name later is read from offset 0 -/
+theorem replaced_file_read_from_its_beginning (c : Cfg) (off : Nat) (tr : List L) :
+    let w := run c (initWith off) tr
     ∀ d ∈ workers w, d.key ≠ 0 → d.offset0 = 0 := by
   intro w
-  exact (yinv_run (yinv_initWith off) tr).offZero
+  exact (yinv_run (yinv_initWith c off) tr).offZero
 
 /-- non-vacuity: replaced while the state file's inode was never synced in this session (before any sync): the new
 inode is read from 0, the saved offset 17 stays with inode 0, whose descriptor leaves without ever getting a worker -/
 example :
-    (run (initWith 17) ([.replace] ++ sync)).hit = false ∧
-    (run (initWith 17) ([.replace] ++ sync)).descs = [⟨1, some 1, 0⟩] ∧
-    (run (initWith 17) ([.replace] ++ sync)).retired = [⟨0, none, 17⟩] := by decide
+    (run codeSync (initWith 17) ([.replace] ++ sync)).hit = false ∧
+    (run codeSync (initWith 17) ([.replace] ++ sync)).descs = [⟨1, some 1, 0⟩] ∧
+    (run codeSync (initWith 17) ([.replace] ++ sync)).retired = [⟨0, none, 17⟩] := by decide
 
 /-- non-vacuity: no replacement: the state file's inode is resumed at the saved offset and kept by every later sync -/
 example :
-    (run (initWith 17) (sync ++ sync)).hit = false ∧
-    (run (initWith 17) (sync ++ sync)).descs = [⟨0, some 0, 17⟩] ∧
-    (run (initWith 17) (sync ++ sync)).retired = [] := by decide
+    (run codeSync (initWith 17) (sync ++ sync)).hit = false ∧
+    (run codeSync (initWith 17) (sync ++ sync)).descs = [⟨0, some 0, 17⟩] ∧
+    (run codeSync (initWith 17) (sync ++ sync)).retired = [] := by decide
 
-/-- whatever happened before — any number of replacements at any time outside a scan-to-open window —, one sync without
-a replacement inside leaves exactly one descriptor: it names the inode under the name, its worker has that inode open,
-and unless that is still the inode the state file named it reads from offset 0 -/
+/-- after ANY history (also one with replacements inside sync windows, rejected opens, a sync broken off with the
+parser still open), one sync without a replacement inside leaves exactly one descriptor: it names the inode under the
+name, its worker has that inode open, and unless that is still the inode the state file named it reads from offset 0 -/
 theorem quiet_sync_watches_current_file (off : Nat) (tr : List L) :
-    let w0 := run (initWith off) tr
-    let w := run w0 sync
-    w0.hit = false → w.hit = false ∧ w.cur = w0.cur ∧
-      ∃ d, w.descs = [d] ∧ d.key = w.cur ∧ d.opened = some w.cur ∧ (w.cur ≠ 0 → d.offset0 = 0) := by
-  intro w0 w hh
-  have h : YInv w0 := yinv_run (yinv_initWith off) tr
-  obtain ⟨h1, h2, d, h3, h4, h5, h6⟩ := h.quiet_sync hh
+    let w0 := run codeSync (initWith off) tr
+    let w := run codeSync w0 sync
+    w.cur = w0.cur ∧ ∃ d, w.descs = [d] ∧ d.key = w.cur ∧ d.opened = some w.cur ∧ (w.cur ≠ 0 → d.offset0 = 0) := by
+  intro w0 w
+  have h : YInv codeSync w0 := yinv_run (yinv_initWith codeSync off) tr
+  obtain ⟨_, h2, _, _, d, h3, h4, h5, h6⟩ := h.quiet_sync (Or.inl codeSync_checks)
   have h2' : w.cur = w0.cur := h2
-  refine ⟨h1, h2', d, h3, ?_, ?_, ?_⟩
+  refine ⟨h2', d, h3, ?_, ?_, ?_⟩
   · rw [h2']; exact h4
   · rw [h2']; exact h5
   · rw [h2']; exact h6
 
-/-- non-vacuity: the trace before the sync ends in the middle of an earlier sync (scan done, merge and open not), with
-replacements before it and while the first worker reads; the complete sync that follows watches inode 2 from 0 -/
+/-- non-vacuity: the trace before the sync ends with a rejected open (`hit`, descriptor 0 without a worker) -/
 example :
-    (run (initWith 17) (sync ++ [.replace, .replace, .scan])).hit = false ∧
-    (run (run (initWith 17) (sync ++ [.replace, .replace, .scan])) sync).hit = false ∧
-    (run (run (initWith 17) (sync ++ [.replace, .replace, .scan])) sync).cur = 2 ∧
-    (run (run (initWith 17) (sync ++ [.replace, .replace, .scan])) sync).descs = [⟨2, some 2, 0⟩] := by decide
+    (run codeSync (initWith 17) [.scan, .replace, .merge, .open, .check]).hit = true ∧
+    (run codeSync (initWith 17) [.scan, .replace, .merge, .open, .check]).descs = [⟨0, none, 17⟩] ∧
+    (run (codeSync) (run codeSync (initWith 17) [.scan, .replace, .merge, .open, .check]) sync).descs =
+      [⟨1, some 1, 0⟩] ∧
+    (run (codeSync) (run codeSync (initWith 17) [.scan, .replace, .merge, .open, .check]) sync).retired =
+      [⟨0, none, 17⟩] := by decide
 
-/-- non-vacuity: the trace before ends between merge and open (the descriptor is there, its worker is not) -/
+/-- non-vacuity: the trace before ends with the parser open and the id check pending (`probe`), after a replacement
+inside that sync: the new sync's scan drops the pending parser -/
 example :
-    (run (initWith 17) ([.replace, .scan, .merge])).hit = false ∧
-    (run (initWith 17) ([.replace, .scan, .merge])).descs = [⟨1, none, 0⟩] ∧
-    (run (run (initWith 17) ([.replace, .scan, .merge])) sync).descs = [⟨1, some 1, 0⟩] := by decide
+    (run codeSync (initWith 17) (sync ++ [.replace, .scan, .replace, .merge, .open])).probe = some 2 ∧
+    (run codeSync (initWith 17) (sync ++ [.replace, .scan, .replace, .merge, .open])).descs = [⟨1, none, 0⟩] ∧
+    (run codeSync (run codeSync (initWith 17) (sync ++ [.replace, .scan, .replace, .merge, .open])) sync).cur = 2 ∧
+    (run codeSync (run codeSync (initWith 17) (sync ++ [.replace, .scan, .replace, .merge, .open])) sync).descs =
+      [⟨2, some 2, 0⟩] ∧
+    (run codeSync (run codeSync (initWith 17) (sync ++ [.replace, .scan, .replace, .merge, .open])) sync).retired =
+      [⟨0, some 0, 17⟩, ⟨1, none, 0⟩] := by decide
 
-/-- the excluded timing (open finding): the name is replaced between scanPaths' stat and the open of the worker: the
-descriptor of the OLD inode gets a worker that opens the path — the NEW inode — from 0; the next sync adds the new
-inode's own descriptor and a second worker from 0: the new file is shipped twice, the file the scan saw never -/
+/-- non-vacuity: the trace before ends in the middle of an earlier sync (scan done, merge and open not) / between merge
+and open (the descriptor is there, its worker is not) -/
+example :
+    (run codeSync (run codeSync (initWith 17) (sync ++ [.replace, .replace, .scan])) sync).descs =
+      [⟨2, some 2, 0⟩] ∧
+    (run codeSync (initWith 17) ([.replace, .scan, .merge])).descs = [⟨1, none, 0⟩] ∧
+    (run codeSync (run codeSync (initWith 17) ([.replace, .scan, .merge])) sync).descs = [⟨1, some 1, 0⟩] := by
+  decide
+
+/-- the old code (no id check), kept as the other branch: the theorems above need `hit = false` there -/
+theorem old_code_needs_quiet_window (off : Nat) (tr : List L) :
+    let w := run ⟨false⟩ (initWith off) tr
+    w.hit = false → ∀ d ∈ workers w, ∀ o, d.opened = some o → o = d.key := by
+  intro w hh
+  exact (yinv_run (yinv_initWith ⟨false⟩ off) tr).openedEq (Or.inr hh)
+
+/-- the old code, the other two: no inode open in two workers, and a quiet sync watches the current file, from a
+history without `hit` -/
+theorem old_code_quiet_sync (off : Nat) (tr : List L) :
+    let w0 := run ⟨false⟩ (initWith off) tr
+    let w := run ⟨false⟩ w0 sync
+    w0.hit = false →
+      (workers w0).Pairwise (fun a b => ∀ o, a.opened = some o → b.opened ≠ some o) ∧
+      w.hit = false ∧ w.cur = w0.cur ∧
+      ∃ d, w.descs = [d] ∧ d.key = w.cur ∧ d.opened = some w.cur ∧ (w.cur ≠ 0 → d.offset0 = 0) := by
+  intro w0 w hh
+  have h : YInv ⟨false⟩ w0 := yinv_run (yinv_initWith ⟨false⟩ off) tr
+  obtain ⟨h1, h2, _, _, d, h3, h4, h5, h6⟩ := h.quiet_sync (Or.inr hh)
+  have h2' : w.cur = w0.cur := h2
+  refine ⟨h.openedDistinct (Or.inr hh), h1.trans hh, h2', d, h3, ?_, ?_, ?_⟩
+  · rw [h2']; exact h4
+  · rw [h2']; exact h5
+  · rw [h2']; exact h6
+
+/-- non-vacuity: the old code without a replacement inside a window behaves like the new one -/
+example :
+    (run ⟨false⟩ (initWith 17) (sync ++ [.replace, .replace] ++ sync)).hit = false ∧
+    (run ⟨false⟩ (initWith 17) (sync ++ [.replace, .replace] ++ sync)).descs = [⟨2, some 2, 0⟩] ∧
+    (run ⟨false⟩ (initWith 17) (sync ++ [.replace, .replace] ++ sync)).retired = [⟨0, some 0, 17⟩] := by decide
+
+/-- fixed finding F-C17-901, kept as the behaviour of the code before fix 5ccf34b: the name is replaced between
+scanPaths' stat and the open of the worker: the descriptor of the OLD inode gets a worker that opens the path — the NEW
+inode — from 0; the next sync adds the new inode's own descriptor and a second worker from 0: the new file is shipped
+twice, the file the scan saw never -/
 theorem cex_replaced_between_scan_and_open :
-    let w := run init [.scan, .replace, .merge, .open, .scan, .merge, .open]
+    let w := run ⟨false⟩ init [.scan, .replace, .merge, .open, .check, .scan, .merge, .open, .check]
     w.hit = true ∧ w.descs = [⟨1, some 1, 0⟩] ∧ w.retired = [⟨0, some 1, 0⟩] := by decide
 
-/-- so without `hit = false` both `worker_reads_the_file_its_descriptor_names` and the second half of
+/-- so for the old code without `hit = false` both `worker_reads_the_file_its_descriptor_names` and the second half of
 `no_inode_read_by_two_workers` fail: the worker under key 0 reads inode 1, and inode 1 is open in two workers -/
 example :
-    ∃ d ∈ workers (run init [.scan, .replace, .merge, .open, .scan, .merge, .open]),
+    ∃ d ∈ workers (run ⟨false⟩ init [.scan, .replace, .merge, .open, .check, .scan, .merge, .open, .check]),
       ∃ o, d.opened = some o ∧ o ≠ d.key :=
   ⟨⟨0, some 1, 0⟩, by decide, 1, by decide⟩
+
+/-- the same schedule with the id check: the open of the first sync is rejected (descriptor 0 never gets a worker), the
+second sync starts ONE worker on the new inode -/
+theorem fixed_replaced_between_scan_and_open :
+    let w := run ⟨true⟩ init [.scan, .replace, .merge, .open, .check, .scan, .merge, .open, .check]
+    w.hit = true ∧ w.descs = [⟨1, some 1, 0⟩] ∧ w.retired = [⟨0, none, 0⟩] := by decide
+
+/-- and `codeSync` is that branch -/
+example :
+    run codeSync init [.scan, .replace, .merge, .open, .check, .scan, .merge, .open, .check] =
+      run ⟨true⟩ init [.scan, .replace, .merge, .open, .check, .scan, .merge, .open, .check] := by decide
 
 end Logrange.Props.C17Sync
